@@ -93,6 +93,7 @@ type Trace struct {
 	CloseAt          int64
 	ClosedAt         int64 // consumer saw Output() closed; -1 never
 	ClosedBlocking   bool  // ... through a receive that was already blocked before Stop() returned
+	RecvEnterAt      int64 // when the consumer entered its last blocking receive
 	NewErr           string
 	Deadlock         string
 	Leaked           []string
@@ -185,6 +186,13 @@ func doStop1(mu *sync.Mutex, tr *Trace, now func() int64, s Script, d *sut, stop
 	mu.Unlock()
 	if s.Stop != nil && s.Stop.Mode == "cancel" {
 		d.cancel()
+		// cancellation alone must end the discipline; Stop() is only used to wait for it, after a
+		// bounded virtual delay (a consumer blocked in a receive must see the closure at once)
+		bound := int64(1000)
+		if s.Timeout > bound {
+			bound = s.Timeout
+		}
+		time.Sleep(time.Duration(bound))
 	}
 	d.stop() // also the documented way to wait for completion after a cancel
 	mu.Lock()
@@ -381,6 +389,9 @@ func execute1(t *testing.T, s Script, leakScan bool, budget time.Duration) Trace
 					tr.AfterStopOuts++
 				}
 			} else {
+				mu.Lock()
+				tr.RecvEnterAt = now()
+				mu.Unlock()
 				sl, ok = <-d.out
 				if !ok {
 					tr.ClosedBlocking = true
@@ -456,8 +467,15 @@ func execute1(t *testing.T, s Script, leakScan bool, budget time.Duration) Trace
 			// after a stop the delivered slices must never be touched again, however long the
 			// producer keeps pushing
 			if !stopped() {
-				// plan never triggered (run ended first): make sure the discipline ends
-				doStop()
+				if s.Stop.AfterRecv < 0 && d.stop != nil {
+					// the stopper goroutine owns the call (it may be in the middle of it): wait on a
+					// channel - waiting on its sync.Once would block this goroutine on a mutex, which
+					// does not count as durably blocked, and the fake clock would stop
+					<-stopDone
+				} else {
+					// plan never triggered (run ended first): make sure the discipline ends
+					doStop()
+				}
 			}
 			_ = stoppedByConsumer
 			wait := int64(1000)
